@@ -65,7 +65,10 @@ def cases(rng, tier):
             d = {"t": "binop", "b": (rlgen.array_random(rng, n) * n)[:n], "f": rng.choice(["add", "maximum", "multiply", "equal", "bitwise_and"])}
         else:
             d = {"t": "concat", "b": rlgen.array_random(rng, 10)}
-        out.append({"a": a, "dtype": rng.choice(["int64", "int32", "uint8", "bool"]), "derived": d})
+        dtd = rng.choice(["int64", "int32", "uint8", "bool", "float64", "float32"])
+        if d.get("f") == "bitwise_and" and dtd.startswith("float"):
+            d["f"] = "subtract"         # inf - inf, (-inf) - (-inf): NaN runs next to each other
+        out.append({"a": a, "dtype": dtd, "derived": d})
     return out
 
 
@@ -85,13 +88,19 @@ def distribution(ps):
     return d
 
 
+def _dmode(p):
+    if p["dtype"] == "bool":
+        return False
+    return "inf" if p["dtype"] in ("float32", "float64") else "small"
+
+
 def _derived(p, arr):
     """(numpy result on the dense array, is the joined form promised?)"""
     d = p["derived"]
     if d["t"] == "slice":
         sl = slice(*d["s"])
         return arr[sl], d["s"][2] not in (None, 1)
-    other = rlgen.to_values(d["b"], p["dtype"], "small" if p["dtype"] != "bool" else False)
+    other = rlgen.to_values(d["b"], p["dtype"], _dmode(p))
     if d["t"] == "binop":
         with np.errstate(all="ignore"):
             return getattr(np, d["f"])(arr, other), True
@@ -101,13 +110,13 @@ def _derived(p, arr):
 def _run_derived(p):
     from npstructures import RunLengthArray
     def f():
-        arr = rlgen.to_values(p["a"], p["dtype"], "small" if p["dtype"] != "bool" else False)
+        arr = rlgen.to_values(p["a"], p["dtype"], _dmode(p))
         d = p["derived"]
         r = RunLengthArray.from_array(arr)
         if d["t"] == "slice":
             res = r[slice(*d["s"])]
         else:
-            other = RunLengthArray.from_array(rlgen.to_values(d["b"], p["dtype"], "small" if p["dtype"] != "bool" else False))
+            other = RunLengthArray.from_array(rlgen.to_values(d["b"], p["dtype"], _dmode(p)))
             with np.errstate(all="ignore"):
                 res = getattr(np, d["f"])(r, other) if d["t"] == "binop" else np.concatenate([r, other])
         dense, joined = _derived(p, arr)
@@ -137,13 +146,27 @@ def run_impl(p):
         o["values"] = guarded(lambda: np.asarray(r.values))
         o["canonical"] = guarded(lambda: rlgen.canonical_info(r, joined=True))
         o["input_unmodified"] = canon(bool(np.array_equal(arr.view(np.uint8), before.view(np.uint8))))
+        def independent():
+            # what decoding hands out belongs to the caller: overwriting it must not change what the array (or the array it was
+            # sliced from) decodes to afterwards
+            ref = r.to_array().copy()
+            for get in (lambda: r.to_array(), lambda: np.asarray(r), lambda: r[1:].to_array() if len(arr) > 1 else r.to_array(),
+                        lambda: r[::1].to_array()):
+                d = get()
+                if isinstance(d, np.ndarray) and d.flags.writeable and d.size:
+                    d[...] = d[::-1].copy() if d.size > 1 and not np.array_equal(d, d[::-1], equal_nan=True) else np.zeros(1, dtype=d.dtype)[0] + (d[0] == 0)
+                again = r.to_array()
+                if not np.array_equal(again.view(np.uint8), ref.view(np.uint8)):
+                    return False
+            return True
+        o["decode_independent"] = guarded(lambda: canon(independent()))
         return o
     return guarded(f)
 
 
 def oracle(p):
     if "derived" in p:
-        arr = rlgen.to_values(p["a"], p["dtype"], "small" if p["dtype"] != "bool" else False)
+        arr = rlgen.to_values(p["a"], p["dtype"], _dmode(p))
         dense, _ = _derived(p, arr)
         if len(dense) == 0:
             return {"k": "obs", "canonical": canon(True)}
@@ -161,6 +184,7 @@ def oracle(p):
     o["values"] = canon(arr[bounds[:-1]])
     o["canonical"] = canon(True)
     o["input_unmodified"] = canon(True)
+    o["decode_independent"] = canon(True)
     return o
 
 
